@@ -96,13 +96,37 @@ func (v *verifAssembly) run(in verifAssemblyIn) {
 	switch in.Kind {
 	case "post":
 		stages = 2 /* the parent is fetched before the other branches start */
+		/* second-level branches first: what the author and the parent need in their turn */
+		secondLevel := map[string]string{}
+		for i, b := range branches {
+			target := base + "/" + b
+			switch b {
+			case "author_outbox":
+				doc := map[string]any{"id": v.p.URL(target), "type": "OrderedCollection", "totalItems": 1, "orderedItems": []any{
+					map[string]any{"id": v.p.URL(target + "/a1"), "type": "Create", "actor": v.p.URL(base + "/authors"),
+						"object": map[string]any{"id": v.p.URL(target + "/n1"), "type": "Note", "name": "STAMPauthor_outbox", "content": "<p>x</p>"}}}}
+				secondLevel[b] = v.branch(target, doc, in.Fault[b], v.n+i)
+			case "parent_author":
+				secondLevel[b] = v.branch(target, person(target, b), in.Fault[b], v.n+i)
+			}
+		}
 		for i, b := range branches {
 			target := base + "/" + b
 			var doc map[string]any
 			switch b {
+			case "author_outbox", "parent_author":
+				continue
 			case "parent":
 				doc = map[string]any{"id": v.p.URL(target), "type": "Note", "name": "STAMPparent", "content": "<p>parent</p>"}
-			case "authors", "recipients":
+				if u, ok := secondLevel["parent_author"]; ok {
+					doc["attributedTo"] = u
+				}
+			case "authors":
+				doc = person(target, b)
+				if u, ok := secondLevel["author_outbox"]; ok {
+					doc["outbox"] = u
+				}
+			case "recipients":
 				doc = person(target, b)
 			case "replies":
 				doc = map[string]any{"id": v.p.URL(target), "type": "Collection", "totalItems": 1, "items": []any{
@@ -208,7 +232,7 @@ func (v *verifAssembly) run(in verifAssemblyIn) {
 				}
 			}
 		})
-		parentShownAsError, frontierKept := false, false
+		parentShownAsError, frontierKept, parentAuthorFailed := false, false, false
 		op("parents", func() {
 			/* as ui.switchTo and ui.loadSurroundings do: the frontier first, then the items above it */
 			_, frontier := tangible.Parents(0)
@@ -218,6 +242,13 @@ func (v *verifAssembly) run(in verifAssemblyIn) {
 				texts = append(texts, it.String(80))
 				if _, isFailure := it.(*Failure); isFailure {
 					parentShownAsError = true
+				}
+				if parent, isPost := it.(*Post); isPost {
+					for _, c := range parent.creators {
+						if _, isFailure := c.(*Failure); isFailure {
+							parentAuthorFailed = true
+						}
+					}
 				}
 			}
 		})
@@ -243,6 +274,20 @@ func (v *verifAssembly) run(in verifAssemblyIn) {
 					}
 				case "replies":
 					failed = x.commentsErr != nil
+				case "author_outbox":
+					/* the author is shown; what failed is recorded with the author (or the author failed altogether) */
+					for _, c := range x.creators {
+						if a, isActor := c.(*Actor); isActor {
+							failed = failed || a.postsErr != nil
+						} else {
+							failed = true
+						}
+					}
+					if len(x.creators) == 0 {
+						failed = true
+					}
+				case "parent_author":
+					failed = parentAuthorFailed || x.parentErr != nil
 				}
 			case *Activity:
 				switch b {
